@@ -1089,6 +1089,9 @@ class Session:
             self.v(what + "-timer-descriptors-left", "%d: %r" % (st["fds"]["timer"], st["timers"][:3]))
         if st["regs"] != b["regs"]:
             self.v(what + "-epoll-registrations-left", "%d vs %d" % (st["regs"], b["regs"]))
+        if st.get("real_fds", 0) > b.get("real_fds", 0):
+            # descriptors of files the daemon opened itself (the credential file and its successors)
+            self.v(what + "-file-descriptors-left", "%d vs %d at start" % (st["real_fds"], b["real_fds"]))
         self.stats["baseline_checks"] += 1
 
     def shutdown(self, expect_status=0):
